@@ -28,6 +28,10 @@ pub enum StopCase {
     /// move, and it is the move the root repetition filter removes. Sweep of stop instants as in `Sweep`, and
     /// (`binary`) `go infinite` + `stop` / `go movetime 1` through the real executable.
     Cycle { start: String, moves: Vec<String>, depth: u8, warm: bool, binary: bool },
+    /// self-play (`rustybait auto <millis>`) from `fen` with a thinking time too short to finish depth 1: every search
+    /// is ended by the timer almost at once, and the game must still go on until the position has no legal move or
+    /// the length guard ends it - never stop earlier because a stopped search had "no move"
+    AutoPlay { fen: String, millis: u8 },
 }
 
 pub struct C07;
@@ -279,6 +283,21 @@ impl Prop for C07 {
                 report(case, f);
             }
         }
+        // self-play with next to no thinking time
+        let mut k2 = 1000u64;
+        for fen in ["rnbqkbnr/pppppppp/8/8/8/8/PPPPPPPP/RNBQKBNR w KQkq - 0 1", "8/8/8/8/8/4k3/4p3/4K3 b - - 0 1", "6k1/5ppp/8/8/8/8/r4PPP/1R4K1 w - - 0 1", "8/5k2/8/8/8/2Q5/2K5/8 w - - 0 1"] {
+            for millis in [0u8, 1, 2] {
+                k2 += 1;
+                if !ctx.owns(k2) {
+                    continue;
+                }
+                let case = StopCase::AutoPlay { fen: fen.to_string(), millis };
+                ctx.note_inflight("C07", &case);
+                if let Err(f) = self.check(ctx, &case, ev) {
+                    report(case, f);
+                }
+            }
+        }
         // records ending in a forced repetition (perpetual-check roots and their colour mirrors, with and without one
         // earlier turn of the cycle in the record)
         let mut k = LATENCY_CASES.len() as u64;
@@ -314,7 +333,7 @@ impl Prop for C07 {
     }
 
     fn rule(&self) -> String {
-        "Cases: end positions of generated walks, fresh or warm table (warm = after a depth-2 search of the same position). In-process the node-entry hook flips the stop flag after exactly N polls, N enumerated exhaustively 0..=64 and then geometrically (x1.4) up to the poll count of the full depth-limited search (depth 3-4), one search per N: the result must be a move legal in the reference model whenever the model has one (None only for checkmate/stalemate roots), and the hook must count 0 node entries after the flip; for a sample of stop instants every cached child of the root is then searched (depth 1-2) with the table the stopped search left behind and must get a legal answer too. Twelve game records that end in a forced repetition (three perpetual-check roots and their colour mirrors, the cycle a b a' b' a played once or after one earlier turn, so that the side to move has a single legal move and it is the one the root repetition filter removes) get the same sweep at depths 2-4 and, through the real binary, `go infinite` + `stop`, `go movetime 0/1` and an exhausted clock. Five fixed boards (start, Kiwipete, 5+5 queens, 8+8 queens, 9+9 queens) get `go depth d`, `stop` after 150 ms through the real binary and must answer within 10 s. Every sweep also contains the stop that is there before the search starts (flag already down), once with the table as it is and once with the root cached at full depth. About 1 case in 12 drives the real binary (half of them after a depth-3 search of the same root in the same session): `go infinite` immediately followed by `stop`, `go movetime 0..10`, or VERIF_STOP_AFTER_POLLS=N with `go depth 4`; `bestmove none` with legal moves available is the violation. evaluations = stopped searches. Non-trivial: N smaller than the polls a depth-1 iteration needs (the window in which no iteration has completed), and every binary session; distinct by (position, N).".into()
+        "Cases: end positions of generated walks, fresh or warm table (warm = after a depth-2 search of the same position). In-process the node-entry hook flips the stop flag after exactly N polls, N enumerated exhaustively 0..=64 and then geometrically (x1.4) up to the poll count of the full depth-limited search (depth 3-4), one search per N: the result must be a move legal in the reference model whenever the model has one (None only for checkmate/stalemate roots), and the hook must count 0 node entries after the flip; for a sample of stop instants every cached child of the root is then searched (depth 1-2) with the table the stopped search left behind and must get a legal answer too. Twelve game records that end in a forced repetition (three perpetual-check roots and their colour mirrors, the cycle a b a' b' a played once or after one earlier turn, so that the side to move has a single legal move and it is the one the root repetition filter removes) get the same sweep at depths 2-4 and, through the real binary, `go infinite` + `stop`, `go movetime 0/1` and an exhausted clock. Twelve self-play runs (`rustybait auto 0|1|2` from four start positions: every search is ended by the timer almost at once) must go on until the last printed position has no legal move or the length guard ends the game. Five fixed boards (start, Kiwipete, 5+5 queens, 8+8 queens, 9+9 queens) get `go depth d`, `stop` after 150 ms through the real binary and must answer within 10 s. Every sweep also contains the stop that is there before the search starts (flag already down), once with the table as it is and once with the root cached at full depth. About 1 case in 12 drives the real binary (half of them after a depth-3 search of the same root in the same session): `go infinite` immediately followed by `stop`, `go movetime 0..10`, or VERIF_STOP_AFTER_POLLS=N with `go depth 4`; `bestmove none` with legal moves available is the violation. evaluations = stopped searches. Non-trivial: N smaller than the polls a depth-1 iteration needs (the window in which no iteration has completed), and every binary session; distinct by (position, N).".into()
     }
 
     fn assumptions(&self) -> Vec<String> {
@@ -386,6 +405,61 @@ impl Prop for C07 {
                         ))
                     }
                 }
+            }
+            StopCase::AutoPlay { fen, millis } => {
+                let env = vec![("VERIF_AUTO_FEN".to_string(), fen.to_string())];
+                let ms = millis.to_string();
+                let mut s = Session::start_bin(uci::ENGINE, &["auto", &ms], &env).map_err(|e| Fail::new("harness", e))?;
+                s.close_stdin();
+                ev.eval();
+                ev.class("self_play_runs_with_0_to_2_ms_per_move");
+                let t0 = std::time::Instant::now();
+                let mut last_fen: Option<String> = None;
+                let mut positions = 0u32;
+                let mut too_long = false;
+                loop {
+                    match s.next_line(std::time::Duration::from_millis(500)) {
+                        Some((_, l)) => {
+                            if let Some(f) = l.strip_prefix("Fen: ") {
+                                last_fen = Some(f.trim().to_string());
+                                positions += 1;
+                            }
+                            if l.contains("too long") {
+                                too_long = true;
+                            }
+                        }
+                        None => {
+                            if s.eof {
+                                break;
+                            }
+                        }
+                    }
+                    if t0.elapsed().as_secs() > 120 {
+                        s.kill();
+                        ev.inconclusive("self-play still running after 120 s");
+                        return Ok(());
+                    }
+                }
+                let code = s.wait_exit(5_000);
+                let pan = s.stderr_text();
+                if code != Some(0) || pan.contains("panicked") {
+                    return Err(Fail::new("panic", format!("self-play from {} with {} ms per move ended with exit status {:?}: {}", fen, millis, code, pan.chars().take(300).collect::<String>())));
+                }
+                let Some(lf) = last_fen else {
+                    return Err(Fail::new("harness", format!("self-play from {} printed no position", fen)));
+                };
+                if !too_long {
+                    let end = Pos::from_fen(&lf).map_err(|e| Fail::new("harness", format!("cannot read the last position {:?} of the self-play: {}", lf, e)))?;
+                    let legal = end.legal();
+                    if !legal.is_empty() {
+                        return Err(Fail::new(
+                            "stopped-search-returns-no-move",
+                            format!("self-play from {} with {} ms per move stopped after {} positions at {} although {} moves are legal there (a search ended by the timer returned no move)", fen, millis, positions, lf, legal.len()),
+                        ));
+                    }
+                }
+                ev.nontrivial(fp_bytes(format!("{}{}", fen, millis).as_bytes()), || json!({"self_play_from": fen, "millis_per_move": millis, "positions": positions, "ended_by_length_guard": too_long}));
+                Ok(())
             }
             StopCase::One { fen, depth, n } => {
                 let p = Pos::from_fen(fen).map_err(|e| Fail::new("harness", e))?;
